@@ -3,6 +3,7 @@ import PdeVerif.Lemmas.Basic
 import Mathlib.RingTheory.Derivation.Basic
 import Mathlib.Tactic.LinearCombination
 import Mathlib.Data.List.GetD
+import Mathlib.Algebra.Polynomial.Derivation
 /-
 C13 - stochastic steps add exactly the documented noise, reproducibly.
 Property theorems about `PdeVerif.Noise` (model of the stochastic single steps of
@@ -391,6 +392,64 @@ theorem stratonovich_drift_milstein (I : Interp) (dt s u rate vd xi sq inv V : K
 
 end drift
 
+/-! ### the steps of a system (what the driver runs) -/
+section sysformula
+variable {K : Type} [Field K] [LinearOrder K] [IsStrictOrderedRing K]
+
+theorem alpha_zero_of_not_hasDrift (I : Interp) (h : I.hasDrift = false) : (I.alpha : K) = 0 := by
+  by_contra hne
+  have := (hasDrift_iff_alpha_ne_zero (K := K) I).mpr hne
+  rw [h] at this
+  exact Bool.false_ne_true this
+
+/-- **One explicit step of the Euler-Maruyama solver**, as the stepper closure performs it: the
+variance is evaluated on the unchanged state, its root is taken by the system's root function,
+and entry `i` changes by `dt*rate + r*xi + 0.5*alpha*dt*v'/V` with `r = sqrt(v*dt/V) ≥ 0`. -/
+theorem sys_euler_step_formula (S : Sys K) (k : Nat) (u xi vol : Array K)
+    (hs : S.s * S.s = S.dt) (hs0 : 0 ≤ S.s) (hreal : S.real = none)
+    (i : Nat) (hi : i < S.n)
+    (hinv : get S.inv (i % S.ncell) = 1 / get vol (i % S.ncell))
+    (hroot : RootOn S.sqrt (get (S.var u) i * get S.inv (i % S.ncell))) :
+    ∃ (unew : Array K) (r : K), S.step .euler k u xi = some unew ∧ 0 ≤ r ∧
+      r * r = get (S.var u) i * S.dt / get vol (i % S.ncell) ∧
+      get unew i = get u i + S.dt * get (S.rate k u) i + r * get xi i
+        + 1 / 2 * S.interp.alpha * S.dt * get (S.varDiff u) i / get vol (i % S.ncell) := by
+  have hsq : get (rootsEM S.sqrt S.n S.ncell (S.var u) S.inv) i
+      = S.sqrt (get (S.var u) i * get S.inv (i % S.ncell)) := by rw [rootsEM, get_tab _ hi]
+  obtain ⟨r, hr0, hr2, hform⟩ := em_step_formula S.n S.ncell S.dt S.s S.interp.alpha S.interp.hasDrift
+    u (S.rate k u) (S.var u) (S.varDiff u) xi (rootsEM S.sqrt S.n S.ncell (S.var u) S.inv) S.inv vol none
+    hs hs0 (alpha_zero_of_not_hasDrift S.interp) i hi hinv (by rw [hsq]; exact hroot.1)
+    (by rw [hsq]; exact hroot.2)
+  have hstep : S.step .euler k u xi = some (emStep S.n S.ncell S.dt S.s S.interp.alpha
+      S.interp.hasDrift u (S.rate k u) (S.varDiff u) xi (rootsEM S.sqrt S.n S.ncell (S.var u) S.inv)
+      S.inv none) := by simp only [Sys.step, hreal, Option.map_none]
+  exact ⟨_, r, hstep, hr0, hr2, by rw [hform]; simp [realTerm]⟩
+
+/-- **One explicit step of the Milstein solver**: as Euler-Maruyama plus
+`0.25*v'/V*(dW^2 - dt)`, `dW^2 = dt*xi^2`. -/
+theorem sys_milstein_step_formula (S : Sys K) (k : Nat) (u xi vol : Array K)
+    (hs : S.s * S.s = S.dt) (hs0 : 0 ≤ S.s) (hreal : S.real = none)
+    (i : Nat) (hi : i < S.n)
+    (hinv : get S.inv (i % S.ncell) = 1 / get vol (i % S.ncell))
+    (hroot : RootOn S.sqrt (get (S.var u) i * get S.inv (i % S.ncell))) :
+    ∃ (unew : Array K) (r dW : K), S.step .milstein k u xi = some unew ∧ 0 ≤ r ∧
+      r * r = get (S.var u) i * S.dt / get vol (i % S.ncell) ∧
+      dW * dW = S.dt * (get xi i * get xi i) ∧
+      get unew i = get u i + S.dt * get (S.rate k u) i + r * get xi i
+        + 1 / 2 * S.interp.alpha * S.dt * get (S.varDiff u) i / get vol (i % S.ncell)
+        + 1 / 4 * get (S.varDiff u) i / get vol (i % S.ncell) * (dW * dW - S.dt) := by
+  have hsq : get (rootsEM S.sqrt S.n S.ncell (S.var u) S.inv) i
+      = S.sqrt (get (S.var u) i * get S.inv (i % S.ncell)) := by rw [rootsEM, get_tab _ hi]
+  obtain ⟨r, dW, hr0, hr2, hdW, hform⟩ := milstein_step_formula S.n S.ncell S.dt S.s S.interp.alpha
+    u (S.rate k u) (S.var u) (S.varDiff u) xi (rootsEM S.sqrt S.n S.ncell (S.var u) S.inv) S.inv vol none
+    hs hs0 i hi hinv (by rw [hsq]; exact hroot.1) (by rw [hsq]; exact hroot.2)
+  have hstep : S.step .milstein k u xi = some (milStep S.n S.ncell S.dt S.s S.interp.alpha
+      u (S.rate k u) (S.varDiff u) xi (rootsEM S.sqrt S.n S.ncell (S.var u) S.inv)
+      S.inv none) := by simp only [Sys.step, hreal, Option.map_none]
+  exact ⟨_, r, dW, hstep, hr0, hr2, hdW, by rw [hform]; simp [realTerm]⟩
+
+end sysformula
+
 /-! ### the documented terms are the textbook Milstein scheme -/
 section textbook
 variable {R A : Type} [CommRing R] [Field A] [CharZero A] [Algebra R A]
@@ -402,6 +461,16 @@ theorem two_b_Db (D : Derivation R A A) (b v Vinv : A) (hb : b * b = v * Vinv)
   rw [Derivation.leibniz, Derivation.leibniz, hV] at h
   simp only [smul_eq_mul, mul_zero, zero_add] at h
   linear_combination h
+
+/-- the same in any commutative ring with a derivation (no division): multiply by `1/4` to read
+`(1/2) b b' X = (1/4) (v'/V) X` -/
+theorem milstein_term_is_textbook_ring {R A : Type} [CommRing R] [CommRing A] [Algebra R A]
+    (D : Derivation R A A) (b v Vinv X : A) (hb : b * b = v * Vinv) (hV : D Vinv = 0) :
+    2 * (b * D b * X) = D v * Vinv * X := by
+  have h := congrArg D hb
+  rw [Derivation.leibniz, Derivation.leibniz, hV] at h
+  simp only [smul_eq_mul, mul_zero, zero_add] at h
+  linear_combination X * h
 
 /-- **The documented correction is the Milstein term.**  In a field with a derivation `D`
 (functions of the field value, `D = d/dc`), with noise amplitude `b`, `b*b = v/V` and constant
@@ -537,4 +606,86 @@ theorem variance_layout_per_component (noise : List K) (ncomp ncell c cell : Nat
   · intro h; rw [h, Nat.mod_one]
 
 end layout
+/-! ### non-vacuity: the hypotheses are satisfiable by concrete non-trivial states -/
+section examples
+open Polynomial
+
+/-- a rational root table, good enough for the examples -/
+def exSqrt (x : ℚ) : ℚ :=
+  if x = 1 then 1 else if x = 4 then 2 else if x = 1 / 4 then 1 / 2 else if x = 1 / 16 then 1 / 4 else 0
+
+/-- two cells with volumes 4 and 1 (non-uniform), one component; `dt = 1/4`, `s = 1/2`; rate `-u`;
+variances 4 and 1 with derivatives 2 and 3 -/
+def exSys (I : Interp) (v : Array ℚ) : Sys ℚ where
+  n := 2
+  ncell := 2
+  dt := 1 / 4
+  s := 1 / 2
+  interp := I
+  inv := #[1 / 4, 1]
+  rate := fun _ u => tab 2 fun i => -(get u i)
+  var := fun _ => v
+  varDiff := fun _ => if v = #[0, 0] then #[0, 0] else #[2, 3]
+  real := none
+  sqrt := exSqrt
+  maxiter := 100
+  maxerr2 := 1 / 100000000
+
+/-- the root hypotheses of `em_step_formula` hold: `s*s = dt`, `sq*sq = v*inv`, `inv = 1/V` -/
+example : (1 / 2 : ℚ) * (1 / 2) = 1 / 4 ∧ exSqrt (4 * (1 / 4)) * exSqrt (4 * (1 / 4)) = 4 * (1 / 4) ∧
+    (0:ℚ) ≤ exSqrt (4 * (1 / 4)) ∧ ((1:ℚ) / 4 = 1 / 4) := by
+  refine ⟨by norm_num, ?_, ?_, rfl⟩ <;> decide +kernel
+
+/-- a Stratonovich Euler-Maruyama step: old value + `dt*rate` + `s*sq*xi` + `0.5*alpha*dt*dv/V` -/
+example : (exSys .stratonovich #[4, 1]).step .euler 0 #[1, 2] #[3, -1]
+    = some #[1 - 1 / 4 + 1 / 2 * 1 * 3 + 1 / 2 * (1 / 2) * (1 / 4) * 2 / 4,
+             2 - 1 / 2 + 1 / 2 * 1 * (-1) + 1 / 2 * (1 / 2) * (1 / 4) * 3 / 1] := by
+  decide +kernel
+
+/-- ... which is not the deterministic step -/
+example : (exSys .stratonovich #[4, 1]).step .euler 0 #[1, 2] #[3, -1]
+    ≠ some ((exSys .stratonovich #[4, 1]).eulerStep 0 #[1, 2]) := by
+  decide +kernel
+
+/-- Milstein differs from Euler-Maruyama by the correction -/
+example : (exSys .ito #[4, 1]).step .milstein 0 #[1, 2] #[3, -1]
+    = some #[1 - 1 / 4 + 1 / 2 * 1 * 3 + 1 / 4 * 2 / 4 * ((3 / 2) * (3 / 2) - 1 / 4),
+             2 - 1 / 2 + 1 / 2 * 1 * (-1) + 1 / 4 * 3 / 1 * ((1 / 2) * (1 / 2) - 1 / 4)] := by
+  decide +kernel
+
+/-- a two-step run on a stream of three arrays hands back exactly the third -/
+example : ((exSys .ito #[4, 1]).run .milstein 0 2 #[1, 2] [#[3, -1], #[1, 1], #[5, 5]]).map (·.2)
+    = some [#[5, 5]] := by
+  decide +kernel
+
+/-- the semi-implicit step converges on this system and also consumes one array -/
+example : ((exSys .antiIto #[4, 1]).run .implicit 0 1 #[1, 2] [#[3, -1], #[1, 1]]).map (·.2)
+    = some [#[1, 1]] := by
+  decide +kernel
+
+/-- a stream that is too short is reported, not silently reused -/
+example : (exSys .ito #[4, 1]).run .euler 0 2 #[1, 2] [#[3, -1]] = none := by
+  decide +kernel
+
+/-- zero variance: the normal numbers do not matter -/
+example : (exSys .antiIto #[0, 0]).step .milstein 0 #[1, 2] #[3, -1]
+    = some ((exSys .antiIto #[0, 0]).eulerStep 0 #[1, 2]) := by
+  decide +kernel
+
+/-- layout: a scalar field and a two-component vector field with variances 1/10 and 3/10 -/
+example : collVars [(1 : ℚ) / 10, 3 / 10] [1, 2] = [1 / 10, 3 / 10, 3 / 10] := by decide +kernel
+example : collVars [(7 : ℚ) / 10] [1, 2] = [7 / 10, 7 / 10, 7 / 10] := by decide +kernel
+example : fieldVars [(1 : ℚ), 2] 4 = [1, 2, 1, 2] := by decide +kernel
+
+/-- the hypotheses of `milstein_term_is_textbook_ring` hold for multiplicative noise
+`b = c`, `v = 4 c^2`, `V = 4` in `ℚ[c]` with `D = d/dc` (and `D b = 1 ≠ 0`) -/
+example : let D : Derivation ℚ ℚ[X] ℚ[X] := Polynomial.derivative'
+    (X : ℚ[X]) * X = (C 4 * X ^ 2) * C (1 / 4) ∧ D (C (1 / 4)) = 0 ∧ D X = 1 := by
+  intro D
+  refine ⟨?_, by simp [D], by simp [D]⟩
+  rw [mul_assoc, mul_comm (X ^ 2), ← mul_assoc, ← C_mul]
+  norm_num
+  ring
+
+end examples
 end PdeVerif.Noise
